@@ -568,3 +568,42 @@ def targets(tier='quick'):
     T.append(Target('fresh/PtTebd-snapshot', 'pt_tebd.PtTebd.__init__', scen_tebd_snapshot, post_tebd_snapshot, tebd_snapshot_registry(), PROP,
                     invoke=invoke_tebd_snapshot, replay=lambda ob: {'func': 'pt_tebd_snapshot', 'inputs': {'obligation': ob['name']}}))
     return T
+
+
+# ---- ParameterizedSystem: the lists of rate / Lindblad callables it keeps are its own (the caller may go on editing its lists)
+def scen_psys_lists(ip, repo):
+    g0, g1, l0, l1 = [user_callable(n, raises=False) for n in ('gamma_0', 'gamma_1', 'lindblad_0', 'lindblad_1')]
+    gammas, lops = [g0, g1], [l0, l1]
+    return {'args': [gammas, lops, 2], 'gammas': gammas, 'lops': lops, 'inputs': {'site': 'ParameterizedSystem(gammas=[..], lindblad_operators=[..])'}}
+
+
+def post_psys_lists(ip, ctx, out):
+    if out.kind == 'raise':
+        return ip.prove('path-accounted', z3.BoolVal(True))
+    kept = out.value
+    ok = isinstance(kept, tuple) and len(kept) == 2 and all(isinstance(x, list) for x in kept)
+    own = ok and kept[0] is not ctx['gammas'] and kept[1] is not ctx['lops'] and kept[0] is not kept[1]
+    same = ok and len(kept[0]) == 2 and len(kept[1]) == 2 and all(a is b for a, b in zip(kept[0] + kept[1], ctx['gammas'] + ctx['lops']))
+    ip.prove('fresh/kept-lists-are-not-the-caller-lists', z3.BoolVal(bool(own)), {'kept': repr(kept)[:200]})
+    ip.prove('fresh/kept-lists-hold-the-given-callables', z3.BoolVal(bool(same)))
+    ip.prove('frame/caller-lists-unchanged', z3.BoolVal(len(ctx['gammas']) == 2 and len(ctx['lops']) == 2))
+
+
+def psys_registry():
+    R = Registry()
+
+    @model
+    def m_ok(ip, args, kw):
+        return None
+    R.models['system._check_gammas_lindblad_operators'] = m_ok
+    return R
+
+
+_t_arr2 = targets
+
+
+def targets(tier='quick'):
+    T = _t_arr2(tier)
+    T.append(Target('fresh/ParameterizedSystem-lists', 'system._check_parameterized_gammas_lindblad_operators', scen_psys_lists, post_psys_lists,
+                    psys_registry(), PROP, replay=lambda ob: {'func': 'parameterized_system_lists', 'inputs': {}}))
+    return T
